@@ -5,6 +5,13 @@ HERE = os.path.dirname(os.path.abspath(__file__))
 ALL = ["C%02d" % i for i in range(1, 21)]
 
 CHECKS = {
+ "C01": dict(
+  engine="girvm",
+  technique="differential execution: the GIR emitted by real `lang` runs is executed by a reference GIR executor and compared with CPython running the source, over grammar-generated programs and argument vectors; PY_START coverage monitor on the frontend",
+  category="exploration",
+  text="Programs from a type-directed grammar over exactly the quantifier's constructs (62 tracked features) are lowered in batches by the real language phase; the flattened GIR read back from frontend/gir.bundle* is executed by girvm for 3 argument vectors and must reproduce CPython's out(...) sequence and return value. A sys.monitoring coverage monitor lists which frontend handlers the workload reached (a required set missing => inconclusive). Failing cases are attributed to a mechanism by compensation (VM switch or CPython-equivalent source rewrite) and re-judged with it, so a different defect in the same program is still reported. Held on 800 (quick) / 8000 (thorough) programs; says nothing about constructs outside the grammar.",
+  note="Trusted: CPython 3.12 as ground truth; girvm's reading of the GIR documentation (its agreement with CPython on all passing programs is the evidence for it). Boolean operands are side-effect free because GIR evaluates and/or eagerly (workload restriction). Containers are observed element-wise, never printed whole.",
+  design="DESIGN.md §C01, §3.4, Appendix A"),
  "C19": dict(
   engine="model-history",
   technique="runtime reference-model monitor over exhaustively enumerated and random operation histories on the real PathManager, plus the same monitor on the live store inside real P3 runs",
